@@ -782,3 +782,42 @@ def _triu_indices(eng, st, args, kwargs):
 @method('Tensor', 'diagonal')
 def _diagonal(eng, st, recv, args, kwargs):
     return like(eng, st, recv, mf('diagonal', M, M)(tv(eng, st, recv)), shape=shape_list(eng, [dim(eng, st, recv, 0)]), view=True, contig=False)
+
+
+def _elementwise_pred(name):
+    def fn(eng, st, args, kwargs):
+        (x,) = args
+        return like(eng, st, x, mf(name, M, M)(tv(eng, st, x)), dtype=V(KDType, z3.IntVal(6)))
+    return fn
+
+
+for _n in ('isfinite', 'isnan', 'isinf'):
+    TABLE['torch.' + _n] = _elementwise_pred(_n)
+    METHODS[('Tensor', _n)] = (lambda nm: (lambda eng, st, recv, args, kwargs: _elementwise_pred(nm)(eng, st, [recv], {})))(_n)
+
+
+def _reduce_bool(name):
+    def fn(eng, st, recv, args, kwargs):
+        return like(eng, st, recv, mf('r' + name, M, M)(tv(eng, st, recv)), shape=shape_list(eng, []))
+    return fn
+
+
+METHODS[('Tensor', 'all')] = _reduce_bool('all')
+METHODS[('Tensor', 'any')] = _reduce_bool('any')
+
+
+def tensor_truth(eng, st, t):
+    """bool(t) of a one-element tensor: an uninterpreted predicate of its value."""
+    return z3.Function('m_truth', M, z3.BoolSort())(tv(eng, st, t))
+
+
+@builtin('torch.eye')
+def _eye(eng, st, args, kwargs):
+    """torch.eye(n, dtype=None, device=None): the n x n identity in the DEFAULT dtype (float32) unless dtype is given."""
+    n = eng.as_int(args[0], st)
+    dt = kwargs.get('dtype')
+    dv = kwargs.get('device')
+    dtype = dt if (dt is not None and dt.kind != KNone) else V(KDType, z3.IntVal(3))
+    dev = dv if (dv is not None and dv.kind != KNone) else V(KDevice, z3.IntVal(1))
+    val = mf('diag', M, M)(mf('full', LS, R, M)(shape_list(eng, [V(KInt, n)]).term, z3.RealVal(1)))
+    return new_tensor(eng, st, val, shape_list(eng, [V(KInt, n), V(KInt, n)]), dtype, dev)
